@@ -65,7 +65,12 @@ PROPS = {
     'C11': {'jobs': [REASM], 'assumptions': [
         'sum of len(userData) over all chunks ever pushed < 2^63 (uint64 counter / int conversion in subtractNumBytes)']},
     'C02': {'jobs': [E2E_T], 'rule': E2E_RULE},
-    'C06': {'jobs': [SAPI, E2E_PR, E2E_T, E2E_API, REASM, ASND], 'rule': E2E_RULE},
+    'C06': {'jobs': [SAPI, E2E_PR, E2E_T, E2E_API, REASM, ASND], 'rule': E2E_RULE, 'assumptions': [
+        'theorems cover the API-visible half (DCEP, abandonment decision, retransmission bounds); the receive half (at most once, intact, subsequence) rests on Reasm + e2e predicates',
+        'L0 models Sender + Sapi (hand-written, Gen.* decision sites regenerated); oracles: burst budget, pending-queue selection, RACK/PTO marks, T3 expiries per tick, which parked writer wakes',
+        'bounds hold while the policy is in force: FORWARD-TSN negotiated (prEnabled), stream in the association table, no openS/setRel on it during the run; MTU < 2^30',
+        'nSent is the transmission count (stamped by the model on every chunk it puts in a packet; compared with the implementation per chunk per gather)',
+        'known findings D14 (fragmented messages) and D21 (abandoned chunk retransmitted once through a stale mark): the full-strength statements are false, witnesses decided and replayed']},
     'C07': {'jobs': [E2E_PR], 'rule': E2E_RULE},
     'C08': {'jobs': [E2E_SD], 'rule': E2E_RULE},
     'C04': {'jobs': [HSD, E2E_HS, E2E_T], 'assumptions': [
@@ -85,7 +90,13 @@ PROPS = {
         'per-stream theorems carry the D9 hypothesis (a stream stays in the association table while it has data outstanding) and assume no uint64 wrap of bufferedAmount (ghost flag wrapBuf)',
         'callback-unlocked is decided on translator-extracted control-flow paths of onBufferReleased and the statements around its call site (syntactic), plus a dynamic TryLock probe in the harness',
     ]},
-    'C18': {'jobs': [SAPI, E2E_API, E2E_SD], 'rule': E2E_RULE},
+    'C18': {'jobs': [SAPI, E2E_API, E2E_SD], 'rule': E2E_RULE, 'assumptions': [
+        'L0 model Sapi on top of Sender and Reasm; conditions of WriteSCTP / sendPayloadData / notifyBlockWritable are regenerated Gen.* sites; structure tied by the direct-drive replay',
+        'single-threaded abstraction: one API call at a time, everything runnable has run before the next op; a second write on a stream with a parked writer (write lock) and a second reader are not issued',
+        'which parked writer a writeNotify token wakes is an oracle input; the token itself is not state (a parked writer has consumed any stale token and found writePending still up)',
+        'run theorems start from any state satisfying WInv / GInv (initial state of every configuration with MTU < 2^30: C18_invariant_reachable)',
+        'C18_parked_write_rollback: equality up to the two ghost id allocators nextWid / nextMsg',
+        'observation (not a C18 clause): while a write is parked bufferedAmount includes its bytes, and the roll-back subtracts them without onBufferReleased - a low-threshold crossing can be skipped']},
     'C09': {'jobs': [E2E_TD, E2E_SD, E2E_HS], 'rule': E2E_RULE},
     'C19': {'jobs': [RTO, TIMER], 'assumptions': [
         'float64 arithmetic of rtoManager / calculateNextTimeout is proved over Rat; the Float instance is compared with the Go code bit for bit on sampled sequences',
